@@ -1437,10 +1437,9 @@ class TimeYyDddSssss(TimeFormat):
         if val2 is not None:
             raise ValueError(f"val2 should be None (not {val2}) for format {fmt}")
 
-        try:
-            return np.array([cls._yds2jd(v) for v in val]).T
-        except TypeError:
-            cls._yds2jd(val)
+        if isinstance(val, str):
+            return cls._yds2jd(val)
+        return np.array([cls._yds2jd(v) for v in val]).T
 
     @classmethod
     @lru_cache()
@@ -1487,10 +1486,9 @@ class TimeYyyyDddSssss(TimeFormat):
         if val2 is not None:
             raise ValueError(f"val2 should be None (not {val2}) for format {fmt}")
 
-        try:
-            return np.array([cls._yds2jd(v) for v in val]).T
-        except TypeError:
-            cls._yds2jd(val)
+        if isinstance(val, str):
+            return cls._yds2jd(val)
+        return np.array([cls._yds2jd(v) for v in val]).T
 
     @classmethod
     @lru_cache()
